@@ -638,6 +638,7 @@ def check(ctx, replay=None):
     refs = {k: r for k, r in zip(uniq.keys(), ref_u)}
     ctx.log("model and specification evaluated")
     outputs = {}
+    to_shrink = []
     for binname, cs in plan:
         obs = run_cases(bins[binname], cs)
         ctx.log("implementation (%s build) ran %d cases" % (binname, len(cs)))
@@ -652,11 +653,17 @@ def check(ctx, replay=None):
             res.traces_validated += len(c.ops)
             outputs[(binname, id(c))] = o
             if not good and not replay and res.violations:
-                v = res.violations[-1]
-                try:
-                    v["case"]["ops"] = shrink(ctx, bins[binname], orc, c, len(v["case"]["ops"]) - 1)
-                except Exception:
-                    pass
+                to_shrink.append((res.violations[-1], binname, c))
+    # shrink one case per violation kind (the shortest), by greedy removal of earlier operations
+    best = {}
+    for v, binname, c in to_shrink:
+        if v["kind"] not in best or len(v["case"]["ops"]) < len(best[v["kind"]][0]["case"]["ops"]):
+            best[v["kind"]] = (v, binname, c)
+    for v, binname, c in list(best.values())[:6]:
+        try:
+            v["case"]["ops"] = shrink(ctx, bins[binname], orc, c, len(v["case"]["ops"]) - 1)
+        except Exception:
+            pass
     # determinism across histories / schedules / builds / option sets, stated directly on the implementation's outputs
     def ranges_of(binname, c):
         o = outputs.get((binname, id(c)))
